@@ -121,10 +121,19 @@ func (r *RefStore) EdgePoints(id, parent string, pts data.Points, now time.Time)
 		return "NaN value"
 	}
 	if id == r.RootID {
-		for _, p := range pts {
-			if p.Type == data.PointTypeTombstone && p.Value > 0 {
-				return "delete root"
+		// what the batch would write: per identity the newest point, on a tie the later one in the batch
+		var surv *data.Point
+		for i := range pts {
+			p := pts[i]
+			if p.Type != data.PointTypeTombstone || normKey(p.Key) != "0" {
+				continue
 			}
+			if surv == nil || !p.Time.Before(surv.Time) {
+				surv = &pts[i]
+			}
+		}
+		if surv != nil && surv.Value > 0 {
+			return "delete root"
 		}
 	}
 	if parent == "" {
